@@ -76,6 +76,8 @@ MonStep(m, e) ==
       [] e.ev = "Stuck"     -> OnStuck(m, e)
       [] e.ev = "ConnClosed" -> [m EXCEPT !.bad = @ \cup (IF m.ptimeout THEN {} ELSE {"ConnLost"}), !.closing = TRUE]
       [] e.ev = "Closing"   -> [m EXCEPT !.closing = TRUE]
+      \* the harness positioned the id counter: ids of finished requests lie about 2^31 requests back - only the outstanding ones count
+      [] e.ev = "IdCounterSet" -> [m EXCEPT !.ids = { x[2] : x \in Outstanding(m) }]
       \* isolated re-run: the scenario's process died (a library goroutine panicked, e.g. on a foreign response) or hung
       [] e.ev = "Exit"      -> [m EXCEPT !.bad = @ \cup (IF e.status # 0 \/ e.timedOut THEN {"Crash"} ELSE {})]
       [] OTHER -> m
